@@ -1002,12 +1002,15 @@ def inline_helpers(trees: Dict[str, ast.Module], anchors: Optional[Set[str]] = N
     """In-place.  Returns notes `module: helper -> n sites (dissolved|kept)`."""
     anchors = anchor_names() if anchors is None else anchors
     notes: List[str] = normalise_names(trees, anchors)
+    notes += inline_package_constants(trees)
+    notes += unroll_dispatch_tables(trees)
+    for t_ in trees.values():
+        _fold_constants(t_)  # getattr(x, "name") / tuple sums that the unrolling has made constant
     notes += dissolve_parameter_objects(trees)
     notes += fuse_wrappers(trees)
     notes += normalise_call_arguments(trees)
     notes += expand_forwarders(trees)
     notes += expand_context_managers(trees)
-    notes += inline_package_constants(trees)
     # method names defined in more than one class anywhere are subject to dispatch
     method_count: Dict[str, int] = {}
     for t in trees.values():
@@ -1154,6 +1157,19 @@ def inline_helpers(trees: Dict[str, ast.Module], anchors: Optional[Set[str]] = N
     return notes
 
 
+def _atom_table(v: ast.AST) -> bool:
+    """a tuple / list display whose elements are dotted names, constants or such displays (not empty)"""
+    def atom(x):
+        if isinstance(x, ast.Constant):
+            return True
+        if isinstance(x, ast.Attribute):
+            return atom(x.value) if not isinstance(x.value, ast.Name) else True
+        if isinstance(x, (ast.Tuple, ast.List)):
+            return all(atom(e) for e in x.elts)
+        return False
+    return isinstance(v, (ast.Tuple, ast.List)) and bool(v.elts) and all(atom(e) for e in v.elts) and all(not isinstance(e, ast.Name) for e in ast.walk(v) if isinstance(e, ast.Name) and False)
+
+
 def _fold_constants(tree: ast.AST) -> int:
     """`0 + 1` -> `1`, `str(0)` -> `'0'`, `'a' + 'b'` -> `'ab'`, `'x_{}'.format` stays (canonicalise turns it into
     an f-string), a str constant inside an f-string joins the literal text, `set('0')` -> `{'0'}`"""
@@ -1174,6 +1190,10 @@ def _fold_constants(tree: ast.AST) -> int:
                     return ast.Constant(value=a + b)
             except Exception:
                 return None
+        if isinstance(v, ast.BinOp) and isinstance(v.op, ast.Add) and isinstance(v.left, ast.Tuple) and isinstance(v.right, ast.Tuple) and _atom_table(v.left) and _atom_table(v.right):
+            return ast.Tuple(elts=list(v.left.elts) + list(v.right.elts), ctx=ast.Load())
+        if isinstance(v, ast.Call) and isinstance(v.func, ast.Name) and v.func.id == "getattr" and len(v.args) == 2 and not v.keywords and isinstance(v.args[1], ast.Constant) and isinstance(v.args[1].value, str) and v.args[1].value.isidentifier():
+            return ast.Attribute(value=v.args[0], attr=v.args[1].value, ctx=ast.Load())
         if isinstance(v, ast.Call) and isinstance(v.func, ast.Name) and v.func.id == "str" and len(v.args) == 1 and not v.keywords and isinstance(v.args[0], ast.Constant) and isinstance(v.args[0].value, (int, str)) and not isinstance(v.args[0].value, bool):
             return ast.Constant(value=str(v.args[0].value))
         if isinstance(v, ast.Call) and isinstance(v.func, ast.Name) and v.func.id == "set" and len(v.args) == 1 and not v.keywords and isinstance(v.args[0], ast.Constant) and isinstance(v.args[0].value, str) and len(v.args[0].value) == 1:
@@ -1258,6 +1278,9 @@ def _inline_package_constants_once(trees: Dict[str, ast.Module]) -> int:
                 continue
             if isinstance(val, ast.Constant) and isinstance(val.value, (str, int)) and not isinstance(val.value, bool):
                 consts.setdefault(mod, {})[nm] = val
+            elif _atom_table(val) and len(list(ast.walk(val))) < 200:
+                # a table of atoms (class names such as ast.If, strings, numbers; nested tuples of those)
+                consts.setdefault(mod, {})[nm] = val
     if not consts:
         return 0
     n_sites = 0
@@ -1298,7 +1321,8 @@ def _inline_package_constants_once(trees: Dict[str, ast.Module]) -> int:
                     elif isinstance(v, ast.Attribute) and isinstance(v.ctx, ast.Load) and isinstance(v.value, ast.Name) and v.value.id in mod_alias and v.attr in consts[mod_alias[v.value.id]]:
                         new = consts[mod_alias[v.value.id]][v.attr]
                     if new is not None:
-                        c = ast.copy_location(ast.Constant(value=new.value), v)
+                        c = ast.copy_location(ast.Constant(value=new.value), v) if isinstance(new, ast.Constant) else ast.copy_location(copy.deepcopy(new), v)
+                        ast.fix_missing_locations(c)
                         if isinstance(val, list):
                             val[i] = c
                         else:
@@ -1540,6 +1564,75 @@ def normalise_call_arguments(trees: Dict[str, ast.Module]) -> List[str]:
             ast.fix_missing_locations(c)
             n_calls += 1
     return [f"{n_calls} call(s) with keyword arguments read positionally"] if n_calls else []
+
+
+def unroll_dispatch_tables(trees: Dict[str, ast.Module]) -> List[str]:
+    """`for a, b in ((p1, f1), (p2, f2), ..): if T(a, ..): S(b, ..); break` over a literal table (written in the
+    loop header or bound once to a local just for it) is the if / elif chain it abbreviates: first match wins,
+    the loop's else clause is the final else."""
+    notes: List[str] = []
+    n = 0
+    for t in trees.values():
+        for fn in [x for x in ast.walk(t) if isinstance(x, _FUNC)]:
+            for holder in ast.walk(fn):
+                for fld in ("body", "orelse", "finalbody"):
+                    seq = getattr(holder, fld, None)
+                    if not (isinstance(seq, list) and seq and isinstance(seq[0], ast.stmt)):
+                        continue
+                    for i, st in enumerate(seq):
+                        if not (isinstance(st, ast.For) and len(st.body) == 1 and isinstance(st.body[0], ast.If) and not st.body[0].orelse and st.body[0].body and isinstance(st.body[0].body[-1], (ast.Break, ast.Return))):
+                            continue
+                        ends_in_return = isinstance(st.body[0].body[-1], ast.Return)
+                        if ends_in_return and st.orelse:
+                            continue
+                        table = st.iter
+                        table_def = None
+                        if isinstance(table, ast.Name):
+                            defs = [a for a in ast.walk(fn) if isinstance(a, ast.Assign) and len(a.targets) == 1 and isinstance(a.targets[0], ast.Name) and a.targets[0].id == table.id]
+                            uses = [x for x in ast.walk(fn) if isinstance(x, ast.Name) and x.id == table.id and isinstance(x.ctx, ast.Load)]
+                            if len(defs) == 1 and len(uses) == 1:
+                                table_def, table = defs[0], defs[0].value
+                        if not (isinstance(table, (ast.Tuple, ast.List)) and 1 <= len(table.elts) <= 12):
+                            continue
+                        tnames = [x.id for x in (st.target.elts if isinstance(st.target, ast.Tuple) else [st.target]) if isinstance(x, ast.Name)]
+                        width = len(st.target.elts) if isinstance(st.target, ast.Tuple) else 1
+                        if len(tnames) != width:
+                            continue
+                        rows = []
+                        for r in table.elts:
+                            cells = list(r.elts) if (width > 1 and isinstance(r, (ast.Tuple, ast.List)) and len(r.elts) == width) else ([r] if width == 1 else None)
+                            if cells is None or not all(_simple_arg(c) for c in cells):
+                                rows = None
+                                break
+                            rows.append(cells)
+                        if not rows:
+                            continue
+                        # the loop variables must not be used after the loop
+                        later = [x for s2 in seq[i + 1:] for x in ast.walk(s2) if isinstance(x, ast.Name) and x.id in tnames]
+                        if later:
+                            continue
+                        chain = None
+                        for cells in reversed(rows):
+                            sub = _Subst({nm: c for nm, c in zip(tnames, cells)}, {})
+                            test = sub.visit(copy.deepcopy(st.body[0].test))
+                            body = [sub.visit(copy.deepcopy(b)) for b in (st.body[0].body if ends_in_return else st.body[0].body[:-1])] or [ast.Pass()]
+                            orelse = [chain] if chain is not None else list(st.orelse)
+                            chain = ast.If(test=test, body=body, orelse=orelse)
+                        ast.copy_location(chain, st)
+                        ast.fix_missing_locations(chain)
+                        seq[i] = chain
+                        if table_def is not None:
+                            for h2 in ast.walk(fn):
+                                for f2 in ("body", "orelse", "finalbody"):
+                                    s3 = getattr(h2, f2, None)
+                                    if isinstance(s3, list) and table_def in s3:
+                                        s3.remove(table_def)
+                                        if not s3:
+                                            s3.append(ast.Pass())
+                        n += 1
+    if n:
+        notes.append(f"{n} first-match loop(s) over a literal dispatch table read as if / elif chains")
+    return notes
 
 
 def dissolve_parameter_objects(trees: Dict[str, ast.Module]) -> List[str]:
